@@ -346,36 +346,41 @@ def _fail_many(ctx, site, idx, keyf, obsf, expf, tol):
         ctx.viol_count[site] += len(idx) - room
 
 
-def job_tri(ctx, sname, k, a_lo, a_hi):
+def job_tri(ctx, sname, k, m):
+    """All n^3 triples of one set for one metric: the n x n table is produced by the library, every triple is judged."""
     S = _set(sname, k)
     n = len(S)
     Rm = np.array([rq.R(q) for q in S])
     T = np.array([_tangles(S, i) for i in range(n)])
+    first = (m == TRI[0])          # accounting of the walked triples is done once per set, not once per metric
     tables = {}
-    for m in TRI:
-        D = np.empty((n, n))
+    D = np.empty((n, n))
+    for i in range(n):
+        for j in range(n):
+            key = lambda: f'{sname}#k{k} p={i} q={j} t={tstr(T[i, j])}'
+            D[i, j] = _f(_call(ctx, m, *((S[i], S[j]) if m in QM else (Rm[i], Rm[j])), key))
+    tables['single'] = D
+    if m in NROW:
+        DN = np.empty((n, n))
         for i in range(n):
-            for j in range(n):
-                key = lambda: f'{sname}#k{k} p={i} q={j} t={tstr(T[i, j])}'
-                D[i, j] = _f(_call(ctx, m, *((S[i], S[j]) if m in QM else (Rm[i], Rm[j])), key))
-        tables[(m, 'single')] = D
-        if m in NROW:
-            DN = np.empty((n, n))
-            for i in range(n):
-                row = lambda: f'{sname}#k{k} row={i}'
-                if m in QM:
-                    DN[i] = _call_n(ctx, m, np.tile(S[i], (n, 1)), S, row)
-                else:
-                    DN[i] = _call_n(ctx, m, np.tile(Rm[i], (n, 1, 1)), Rm, row)
-            tables[(m, 'N-row')] = DN
-    if a_lo == 0:
+            row = lambda: f'{sname}#k{k} row={i}'
+            if m in QM:
+                DN[i] = _call_n(ctx, m, np.tile(S[i], (n, 1)), S, row)
+            else:
+                DN[i] = _call_n(ctx, m, np.tile(Rm[i], (n, 1, 1)), Rm, row)
+        tables['N-row'] = DN
+    if first:
         ctx.states += n * n
-    for a in range(a_lo, a_hi):
-        tight = np.abs(T[a][:, None] + T - T[a][None, :]) <= 1e-9          # [b, c]
-        distinct = (T[a][:, None] > SAME) & (T > SAME) & (T[a][None, :] > SAME)
-        ctx.cls('triangle:tight', int((tight & distinct).sum()))
-        ctx.cls('triangle:strict', int((~tight & distinct).sum()))
-        for (m, e), D in tables.items():
+    for a in range(n):
+        if first:
+            tight = np.abs(T[a][:, None] + T - T[a][None, :]) <= 1e-9          # [b, c]
+            distinct = (T[a][:, None] > SAME) & (T > SAME) & (T[a][None, :] > SAME)
+            ctx.cls('triangle:tight', int((tight & distinct).sum()))
+            ctx.cls('triangle:strict', int((~tight & distinct).sum()))
+            for b, c in np.argwhere(distinct):
+                ctx.seen(('tri', sname, k, a, int(b), int(c)))
+            ctx.transitions += n * n
+        for e, D in tables.items():
             lhs = D[a][None, :]                     # d(a, c)
             rhs = D[a][:, None] + D                 # d(a, b) + d(b, c)
             bad = np.argwhere(~(lhs <= rhs + TOL))
@@ -388,13 +393,10 @@ def job_tri(ctx, sname, k, a_lo, a_hi):
                            lambda x: f'{sname}#k{k} a={a} b={x[0]} c={x[1]} tab={tstr(T[a, x[0]])} tbc={tstr(T[x[0], x[1]])} tac={tstr(T[a, x[1]])}',
                            lambda x: {'d(a,c)': D[a, x[1]], 'd(a,b)': D[a, x[0]], 'd(b,c)': D[x[0], x[1]]},
                            lambda x: 'd(a,c) <= d(a,b) + d(b,c)', TOL)
-        for b in range(n):
-            for c in range(n):
-                if distinct[b, c]:
-                    ctx.seen(('tri', sname, k, a, b, c))
-        ctx.transitions += n * n
     ctx.max_depth = max(ctx.max_depth, 2)
-    ctx.sample({'triangle_table': sname, 'k': k, 'rows_a': [a_lo, a_hi], 'a': S[a_lo].tolist(), 'b': S[1].tolist(), 'c': S[-1].tolist()})
+    if first:
+        ctx.sample({'triangle_table': sname, 'k': k, 'metric': m, 'a': S[0].tolist(), 'b': S[1].tolist(), 'c': S[-1].tolist(),
+                    'd(a,c)': D[0, -1], 'd(a,b)': D[0, 1], 'd(b,c)': D[1, -1]})
 
 
 # ---- (d) closed forms on an explicit angle grid -------------------------------------------------------------
@@ -534,33 +536,34 @@ def run(ctx):
         for lo, hi in core.chunks(len(_set(gname, k)), n):
             jobs.append(('job_inv', (pname, gname, k, lo, hi)))
 
-    def add_tri(sname, k, n):
-        for lo, hi in core.chunks(len(_set(sname, k)), n):
-            jobs.append(('job_tri', (sname, k, lo, hi)))
+    def add_tri(sname, k):
+        for m in TRI:
+            jobs.append(('job_tri', (sname, k, m)))
 
     # heaviest first (pool.map hands jobs out in order)
     if ctx.thorough:
         add_inv('G48', 'G48', 0, 16)
-        for k in ks:
+        for k in ks[::2]:
             add_inv('G48:c', 'G48:l', k, 16)
-        add_tri('G120', 0, 16)
-        add_tri('G120:c', ks[0], 16)
+        add_tri('G120', 0)
+        add_tri('G120:c', ks[0])
+        add_tri('G120:l', ks[1])
         add_pairs('G120', 0, 16)
         for k in ks:
             add_pairs('G120:c', k, 16)
             add_pairs('G120:l', k, 16)
             add_pairs('G48:c', k, 4)
             add_pairs('G48:l', k, 4)
-            add_tri('G48:c', k, 2)
-            add_tri('G48:l', k, 2)
+            add_tri('G48:c', k)
+            add_tri('G48:l', k)
     else:
         k = ks[0]
         add_inv('G24', 'G24', 0, 6)
         add_inv('G24:c', 'G48:l', k, 16)
         add_pairs('G120:c', k, 20)
-        add_tri('G48:c', k, 4)
+        add_tri('G48:c', k)
     add_pairs('G48', 0, 6)
-    add_tri('G48', 0, 4)
+    add_tri('G48', 0)
     for pidx in range(len(P12())):
         jobs.append(('job_cf', (pidx,)))
     jobs.append(('job_nrow_matrix_note', ()))
